@@ -3,7 +3,7 @@ encoding never silently changes a field.
 
 spec : spec/codec/ApciTable.tla (service of each ten-bit APCI value), spec/codec/Apci.tla (reserved bits per service, laws), Apci_Judge.tla
 code : real xknx.telegram.apci:
-       C04 - every APDU of length 0..2, a stride of length 3, and for every ten-bit code APDUs of every length 2..24 (and some up to 255)
+       C04 - every APDU of length 0..2, a stride of length 3, and for every ten-bit code APDUs of every length 2..48, 64, 254, 255 (thorough: every length up to 255)
              with all-zero / all-one / alternating / random content; 1 s watchdog.
        C05 - every APDU of that plan that decodes: to_knx(), calculated_length(), decode again, bitwise comparison.
        C06 - every service class built with boundary values for each constructor argument (0, 1, 2^k - 1, 2^k, -1, 2^32; byte strings of
@@ -57,7 +57,7 @@ def apdus(ck, rnd):
             if not quick or a < 4 or (a * 256 + b) % 17 == 0:
                 yield bytes([a, b])
     for v in range(1024):
-        for ln in list(range(3, 25)) + ([40, 64, 254, 255] if not quick or v % 16 == 0 else []):
+        for ln in (list(range(3, 49)) + [64, 254, 255]) if quick else range(3, 256):
             for fill in ((0, 0xFF, 0x55) if quick else (0, 0xFF, 0x55, 0xAA, 1)):
                 yield bytes([v >> 8, v & 0xFF]) + bytes([fill]) * (ln - 2)
             yield bytes([v >> 8 | (rnd.randrange(64) << 2), v & 0xFF]) + bytes(rnd.randrange(256) for _ in range(ln - 2))
